@@ -39,7 +39,7 @@ def bounds(tier):
     return {"leaf alphabets": "vf/opcat.py leaf_specs('%s')" % tier,
             "tree nodes": "1 over 11 leaves, 2 over 5 leaves" if tier == "quick" else "<= 2 over 11 leaves",
             "cache orders": ["N then H", "H then N"],
-            "consumer": "LinearLeastSquares(A, y, lamda=0.1) on every 7th non-Toeplitz configuration with <= 16 inputs"}
+            "consumer": "LinearLeastSquares(A, y, lamda=0.1) with the default solver (CG) on every 7th non-Toeplitz configuration with <= 16 inputs and cond <= 1e6; GradientMethod and ADMM as well on every 63rd configuration where cond(A^H A + lamda) <= 50"}
 
 
 def gen_cases(tier, seed):
@@ -55,6 +55,7 @@ def gen_cases(tier, seed):
             cases.append(dict(kind="tree", spec=t))
     for i, c in enumerate(cases):
         c["consumer"] = (i % 7 == 0)
+        c["consumer_all_solvers"] = (i % 63 == 0)
     return cases
 
 
@@ -146,6 +147,23 @@ def run_case(case, seed):
         scale = max(1.0, float(np.abs(M.conj().T @ y.ravel()).max()))
         if not np.abs(res).max() <= 1e-6 * scale:
             V("consumer-normal-equations", "LinearLeastSquares(A,y,lamda=0.1) leaves normal-equation residual %.3g" % np.abs(res).max())
+        # the other solvers that work through A.N (GradientMethod: gradient A.N x - A^H y; ADMM: inner CG on A.N + ...)
+        if case.get("consumer_all_solvers") and np.linalg.cond(G + lam * np.eye(G.shape[0])) <= 50:
+            for solver, kw in (("GradientMethod", dict(max_iter=1500)), ("ADMM", dict(max_iter=150, max_cg_iter=20))):
+                C2 = opcat.build(spec, seed)
+                np.random.seed(11)
+                try:
+                    x2 = sp.app.LinearLeastSquares(C2, y.copy(), lamda=lam, solver=solver, tol=0, show_pbar=False, **kw).run()
+                except Exception as e:
+                    V("consumer-normal-equations", "LinearLeastSquares(solver=%s) raised %s: %s" % (solver, type(e).__name__, str(e)[:100]))
+                    continue
+                states += 1
+                trans += 1
+                xv2 = np.asarray(x2).ravel()
+                res2 = G @ xv2 + lam * xv2 - M.conj().T @ y.ravel()
+                if not (np.all(np.isfinite(xv2)) and np.abs(res2).max() <= 1e-5 * scale):
+                    V("consumer-normal-equations", "LinearLeastSquares(A,y,lamda=0.1,solver=%s) leaves normal-equation residual %.3g" % (
+                        solver, float(np.abs(res2).max()) if np.all(np.isfinite(xv2)) else float("nan")))
     n = G.shape[0]
     nontrivial = not np.allclose(G, np.eye(n))
     return dict(states=states, transitions=trans, nontrivial=bool(nontrivial),
